@@ -21,7 +21,7 @@ import (
 func init() {
 	core.Register(&core.Simple{
 		Id: "C11", Lvl: "exploration", Quick: 220, Thorough: 6000, PerBatch: 55, Width: 55, Timeout: 2400,
-		RuleText: "each case is a history of 20-40 file-management requests through the real connection loop on a generated tree (names over ASCII and Mac-Roman high bytes incl. names that merely contain '.incomplete', spaces, 1..60 bytes; not starting with '.' or '@'): rename, move, delete, new folder (also onto an existing name), alias, set-comment on files and folders, and upload started and cut (partial file); destination names never collide. After every step a reference namespace model is compared with: the file list of every folder (exactly the model's entries, partials under their final name, folder item counts, sizes), get-info and the download reply of every complete file (size and type agree with the list and with the bytes on disk; comment), and the directory contents (side files .info_/.rsrc_/.incomplete travel or vanish with their file, no orphans). distinct = multiset of operation kinds; non-trivial = history has a rename/move/delete of a file that owns a side file or a partial",
+		RuleText: "each case is a history of 20-40 file-management requests through the real connection loop on a generated tree (names over ASCII and Mac-Roman high bytes incl. names that merely contain '.incomplete', spaces, 1..60 bytes; not starting with '.' or '@'): rename, move, delete, new folder (also onto an existing name), alias, set-comment on files and folders, upload started and cut (partial file), and move/rename attempts on a partial by its listed name; destination names never collide. After every step a reference namespace model is compared with: the file list of every folder (exactly the model's entries, partials under their final name, folder item counts, sizes), get-info and the download reply of every complete file (size and type agree with the list and with the bytes on disk; comment), and the directory contents (side files .info_/.rsrc_/.incomplete travel or vanish with their file, no orphans). distinct = multiset of operation kinds; non-trivial = history has a rename/move/delete of a file that owns a side file or a partial",
 		Case: runCase,
 	})
 }
@@ -179,7 +179,7 @@ func (w *world) fields(e *ent) []rc.Field {
 
 func (w *world) doStep() bool {
 	r := w.c.R
-	kind := core.Pick(r, []string{"rename", "rename", "move", "move", "delete", "delete", "new-folder", "new-folder-existing", "alias", "comment", "comment", "partial-upload"})
+	kind := core.Pick(r, []string{"rename", "rename", "move", "move", "delete", "delete", "new-folder", "new-folder-existing", "alias", "comment", "comment", "partial-upload", "move-partial", "rename-partial"})
 	w.kinds[kind]++
 	// an alias is an absolute link: renaming, moving or deleting its target, or any folder above the target, leaves
 	// it dangling (the statement does not say what a dangling alias looks like), so such entries are left alone
@@ -261,6 +261,43 @@ func (w *world) doStep() bool {
 			w.rich = true
 		}
 		e.parent.remove(e)
+	case "move-partial", "rename-partial":
+		// a partial upload addressed by its listed (final) name: it may stay where it is or travel as a partial,
+		// but it must remain a partial upload with exactly its bytes
+		parts := w.all(func(e *ent) bool { return e.partial })
+		if len(parts) == 0 {
+			return true
+		}
+		e := core.Pick(r, parts)
+		var dests []*ent
+		for _, f := range w.folders() {
+			if f != e.parent && f.child(e.name) == nil {
+				dests = append(dests, f)
+			}
+		}
+		if len(dests) == 0 {
+			return true
+		}
+		d := core.Pick(r, dests)
+		oldName := e.name
+		newName := e.name
+		if kind == "move-partial" {
+			rep, _ := w.cl.Call(208, append(w.fields(e), rc.F(212, rc.Path(d.path()...)))...)
+			w.log = append(w.log, fmt.Sprintf("move of the partial upload %q from %q to %q -> %v", e.name, e.parent.path(), d.path(), rep))
+		} else {
+			d = e.parent
+			newName = w.genName(e.parent)
+			rep, _ := w.cl.Call(207, append(w.fields(e), rc.F(211, newName))...)
+			w.log = append(w.log, fmt.Sprintf("rename of the partial upload %q to %q in %q -> %v", e.name, newName, e.parent.path(), rep))
+		}
+		w.rich = true
+		// did it travel (as a partial)?
+		if _, err := os.Stat(filepath.Join(d.disk(w.srv.FileRoot), xfer.MacToUTF8(newName)+".incomplete")); err == nil && (d != e.parent || !bytes.Equal(newName, oldName)) {
+			e.parent.remove(e)
+			e.parent = d
+			e.name = newName
+			d.kids = append(d.kids, e)
+		}
 	case "new-folder":
 		p := core.Pick(r, w.folders())
 		nn := w.genName(p)
@@ -406,7 +443,19 @@ func (w *world) check() bool {
 				c.Fail("C11/list/size", "after step %d: file %q listed with size %d, it has %d bytes\nhistory:\n%s", w.step, k.name, fe.Size, len(target.data), w.hist())
 				return false
 			}
-			if k.partial || k.alias != nil {
+			if k.partial {
+				b, err := os.ReadFile(filepath.Join(f.disk(root), xfer.MacToUTF8(k.name)+".incomplete"))
+				if err != nil || !bytes.Equal(b, k.data) {
+					c.Fail("C11/disk/partial", "after step %d: the partial upload %q is no longer a partial file with its %d bytes (%v; a complete file of that name exists: %v)\nhistory:\n%s", w.step, k.name, len(k.data), err, fileExists(filepath.Join(f.disk(root), xfer.MacToUTF8(k.name))), w.hist())
+					return false
+				}
+				if fileExists(filepath.Join(f.disk(root), xfer.MacToUTF8(k.name))) {
+					c.Fail("C11/disk/partial-published", "after step %d: the partial upload %q also exists under its final name\nhistory:\n%s", w.step, k.name, w.hist())
+					return false
+				}
+				continue
+			}
+			if k.alias != nil {
 				continue
 			}
 			// a listed complete file is addressable by its listed name: info and download agree with list and disk
@@ -483,6 +532,8 @@ func (w *world) check() bool {
 	}
 	return true
 }
+
+func fileExists(p string) bool { _, err := os.Lstat(p); return err == nil }
 
 func runCase(c *core.Case) {
 	r := c.R
